@@ -713,6 +713,74 @@ def fam_multix(rnd, i):
     return steps
 
 
+def fam_recurse(rnd, i):
+    """Recursive watches: trees whose sibling names share string prefixes (dir1/dir10, sub/sub2), directories
+    created one level at a time (each followed by receipt of its Create), inner renames, re-creation under a
+    renamed-away name, file operations at every depth, two recursive roots (r/a, r/ab) and Remove of one."""
+    w = "w1"
+    steps = [{"s": "recurse", "recurse": True}, fs("mkdir", ("r",))]
+    two_roots = rnd.random() < 0.35
+    if two_roots:
+        steps += [fs("mkdir", ("r", "a")), fs("mkdir", ("r", "ab")), fs("mkdir", ("r", "a", "s")), fs("mkdir", ("r", "ab", "s")),
+                  new(w, rnd.choice([0, 0, 8])), call(w, "add", ("r", "a"), rnd.choice(["rel", "abs", "dot"]), recurse=True),
+                  call(w, "add", ("r", "ab"), rnd.choice(["rel", "abs", "dot"]), recurse=True), drain(w)]
+        dirs = [("r", "a"), ("r", "ab"), ("r", "a", "s"), ("r", "ab", "s")]
+    else:
+        pre = [("r", "dir1"), ("r", "dir10"), ("r", "sub"), ("r", "sub2"), ("r", "dir1", "in"), ("r", "sub", "deep")]
+        k = rnd.randint(2, len(pre))
+        dirs = []
+        for d in pre[:k]:
+            if d[:-1] == ("r",) or d[:-1] in dirs:
+                steps.append(fs("mkdir", d))
+                dirs.append(d)
+        steps += [new(w, rnd.choice([0, 0, 8])), call(w, "add", ("r",), rnd.choice(["rel", "abs", "dot", "trail"]), rnd, recurse=True), drain(w)]
+        dirs = [("r",)] + dirs
+    cnt = [0]
+
+    def fresh(prefix):
+        cnt[0] += 1
+        return "%s%d" % (prefix, cnt[0])
+    removed = None
+    for _ in range(rnd.randint(4, 14)):
+        r = rnd.random()
+        if r < 0.40:
+            d = rnd.choice(dirs)
+            f = d + (rnd.choice(["f1", "f2", "f10"]),)
+            steps += [fs("create", f), fs("write", f), fs("chmod", f)]
+            if rnd.random() < 0.5:
+                steps.append(fs("unlink", f))
+            else:
+                steps.append(fs("rename", f, to=d + (fresh("g"),)))
+        elif r < 0.60:
+            d = rnd.choice(dirs)
+            if len(d) < 4:
+                nd = d + (rnd.choice(["dir1", "dir10", "sub", "sub2", "n", "n1"]),)
+                if nd not in dirs:
+                    steps += [fs("mkdir", nd), drain(w)]       # one level at a time, Create received before anything happens inside
+                    dirs.append(nd)
+        elif r < 0.85 and not two_roots:
+            cands = [d for d in dirs if len(d) >= 2]
+            if cands:
+                a = rnd.choice(cands)
+                b = a[:-1] + (rnd.choice(["x", "dir", "su", "sub3", "dir11"]) + str(cnt[0]),)
+                cnt[0] += 1
+                steps += [fs("rename", a, to=b), drain(w)]
+                dirs = [b + d[len(a):] if d[:len(a)] == a else d for d in dirs]
+                if rnd.random() < 0.4:             # a new directory under the old name
+                    steps += [fs("mkdir", a), drain(w)]
+                    dirs.append(a)
+        elif two_roots and removed is None and r < 0.8:
+            removed = rnd.choice([("r", "a"), ("r", "ab")])
+            steps += [drain(w), call(w, "remove", removed, "rel", recurse=True), drain(w)]
+            dirs = [d for d in dirs if d[:2] != removed]
+            # activity in the removed tree must not be reported any more, in the other it must
+            steps += [fs("create", removed + ("gone",)), fs("create", removed + ("s", "gone2"))]
+        if rnd.random() < 0.6:
+            steps.append(drain(w))
+    steps += [drain(w), obs(w), call(w, "close"), drain(w), obs(w), {"s": "recurse", "recurse": False}]
+    return steps
+
+
 def fam_multi(rnd, i):
     """The same history observed by several watchers with different buffer sizes, while other
     watchers on the same directories are created, used and closed."""
@@ -982,7 +1050,7 @@ FAMS = {
     "cycle": fam_cycle, "newclose": fam_newclose, "overflow": fam_overflow, "moves": fam_moves, "multi": fam_multi,
     "absorb": fam_absorb, "withops": fam_withops, "repoint": fam_repoint, "stall": fam_stall, "spell": fam_spell,
     "endwatch": fam_endwatch, "paced": fam_paced, "ovfstall": fam_ovfstall, "ovflate": fam_ovflate,
-    "parmoves": fam_parmoves, "multix": fam_multix,
+    "parmoves": fam_parmoves, "multix": fam_multix, "recurse": fam_recurse,
 }
 
 
